@@ -1,5 +1,5 @@
 import StepModel.P21.Writer
-import StepModel.P21.ReaderLemmas
+import StepModel.P21.ReaderLemmas2
 import StepModel.Generated.P21RWGen
 /-! # C01 — exchange files survive read-then-write: property theorems
 
@@ -20,7 +20,7 @@ populated parameter lists (needs the per-literal lemmas of property C09 generali
 in mid-file), selects, complex instances, the header, and the fixed-point property of write∘read.
 -/
 namespace StepModel.P21.C01
-open StepModel StepModel.P21 StepModel.P21.RLemmas StepModel.P21.Lemmas
+open StepModel StepModel.P21 StepModel.P21.RLemmas StepModel.P21.Lemmas StepModel.P21.Grammar
 
 /-- the text one aggregate element stands for, independent of any scratch string -/
 def nodeText {F} (ops : FloatOps F) (cfg : RWCfg) (d : Dict) (ty : ElemTy) (e : Elem F) : List Byte :=
@@ -105,6 +105,68 @@ theorem C01_read_empty_record {F} (env : Env F) (strict : Bool) (seps : List Byt
   rw [readTokenSeparator_seps seps hs (40 :: l) 41 rest sk (by decide) (by decide)]
   rw [shiftInto_good 40 _ 41 rest sk (by decide)]
   simp
+
+/-! ### reading a record: every layout, parameter kinds layer by layer -/
+
+/-- the source as it is now: `CheckRemainingInput` skips comments (regenerated on every run) -/
+theorem C01_source_skips_comments_after_values : Generated.rwLexCfg.criSkipsComments = true := by decide
+
+/-- **composition**: if `STEPattribute::STEPread` reads each parameter's token to its value wherever it stands
+    (`ParamOK`), then `SDAI_Application_instance::STEPread` reads the whole record `( p₁ , … , pₙ )` — with any layout
+    of blanks and comments before and after every parameter — to exactly those values, with severity NULL, and rests
+    right after the closing parenthesis.  Any number of parameters, any attribute kinds. -/
+theorem C01_read_record_of_params {F} (env : Env F) (strict : Bool) (ps : List (Param F)) (hne : ps ≠ [])
+    (hok : ∀ p ∈ ps, ParamOK env strict p) (l : List Byte) (sk : Bool) (rest : List Byte) :
+    ∃ sk', instSTEPread env strict (ps.map (·.a)) (G l (40 :: (renderParams ps ++ rest)) sk) =
+      .ok ⟨.null, ps.map (·.v), G ((40 :: renderParams ps).reverse ++ l) rest sk'⟩ :=
+  instSTEPread_params env strict ps hne hok l sk rest
+
+/-- the parameter kinds for which `ParamOK` is proved: `$` for an OPTIONAL attribute of any type, `*` for a derived
+    attribute, an INTEGER token of the grammar (optional sign, digits) whose value fits `long` and is not the in-band
+    null `LONG_MAX` — each with any layout before and after -/
+inductive Covered {F} : Param F → Prop where
+  | dollar (a : AttrD) (hopt : a.optional = true) (hder : a.derived = false) (hred : a.redefining = false)
+      (before after : List Byte) (hb : Seps before) (ha : Seps after) :
+      Covered { a := a, v := nullOf a, tok := [36], before := before, after := after }
+  | star (a : AttrD) (hder : a.derived = true) (hred : a.redefining = false)
+      (before after : List Byte) (hb : Seps before) (ha : Seps after) :
+      Covered { a := a, v := .derived, tok := [42], before := before, after := after }
+  | integer (a : AttrD) (hty : a.ty = .one .integer) (hder : a.derived = false) (hred : a.redefining = false)
+      (tok : List Byte) (htok : isInteger tok = true) (hlo : IStream.longMin ≤ denoteInteger tok)
+      (hhi : denoteInteger tok < IStream.longMax)
+      (before after : List Byte) (hb : Seps before) (ha : Seps after) :
+      Covered { a := a, v := .one (.atom (.int (denoteInteger tok))), tok := tok, before := before, after := after }
+
+/-- **read (render p ℓ) = p for records over the covered kinds** (`_partial`: REAL/NUMBER/STRING/BINARY/ENUMERATION/
+    BOOLEAN/LOGICAL tokens, references, aggregates, selects are *not* covered by this theorem — for them `ParamOK` is a
+    hypothesis of `C01_read_record_of_params`; they are tied by correspondence only).  Every dictionary, every reader
+    configuration in which `CheckRemainingInput` skips comments, every layout, any number of parameters. -/
+theorem C01_read_record_partial {F} (env : Env F) (strict : Bool) (hcfg : env.lex.criSkipsComments = true)
+    (ps : List (Param F)) (hne : ps ≠ []) (hc : ∀ p ∈ ps, Covered p) (l : List Byte) (sk : Bool) (rest : List Byte) :
+    ∃ sk', instSTEPread env strict (ps.map (·.a)) (G l (40 :: (renderParams ps ++ rest)) sk) =
+      .ok ⟨.null, ps.map (·.v), G ((40 :: renderParams ps).reverse ++ l) rest sk'⟩ := by
+  apply instSTEPread_params env strict ps hne
+  intro p hp
+  cases hc p hp with
+  | dollar a hopt hder hred before after hb ha => exact ParamOK.dollar env strict hcfg a hopt hder hred before after hb ha
+  | star a hder hred before after hb ha => exact ParamOK.star env strict hcfg a hder hred before after hb ha
+  | integer a hty hder hred tok htok hlo hhi before after hb ha =>
+    exact ParamOK.integer env strict hcfg a hty hder hred tok htok hlo hhi before after hb ha
+
+/-- the hypotheses are satisfiable: `( /* c */ -17 /**/ , $ )` for (INTEGER, OPTIONAL REAL) -/
+example : ∀ p ∈ ([{ a := { name := "i", ty := .one .integer, optional := false }, v := .one (.atom (.int (-17))),
+                    tok := q "-17", before := q " /* c */ ", after := q " /**/ " },
+                  { a := { name := "r", ty := .one .real, optional := true }, v := .one (.atom .unset),
+                    tok := [36], before := [], after := q " " }] : List (Param Nat)), Covered p := by
+  intro p hp
+  simp only [List.mem_cons, List.mem_nil_iff, or_false] at hp
+  rcases hp with rfl | rfl
+  · exact Covered.integer { name := "i", ty := .one .integer, optional := false } rfl rfl rfl (q "-17") (by decide)
+      (by decide) (by decide) _ _
+      (Seps.comment (q " ") (q " c ") (q " ") (by decide) (by decide) (Seps.blanks _ (by decide)))
+      (Seps.comment (q " ") [] (q " ") (by decide) (by decide) (Seps.blanks _ (by decide)))
+  · exact Covered.dollar { name := "r", ty := .one .real, optional := true } rfl rfl rfl [] (q " ")
+      (Seps.blanks _ (by decide)) (Seps.blanks _ (by decide))
 
 /-! ### the comment defects and their repair on the minimal inputs (model level; the check replays them on the code) -/
 
